@@ -271,6 +271,9 @@ def nullable_tail_case(rng):
 
 def plan(tier, rng, sl, nslices, stats):
     cfg = TIERS[tier]
+    if sl == 0:
+        yield {"scale": "dispatcher", "n": 40, "nv": 81, "prods": []}
+        yield {"scale": "long_word", "n": 1500, "nv": 1, "prods": []}
     for i in range(cfg["random"]):
         if i % 10 == 9:
             yield nullable_tail_case(rng)
@@ -290,7 +293,41 @@ def plan(tier, rng, sl, nslices, stats):
         stats.extra["exhaustive_scopes"] = "all %d grammars with 2 variables, 2 terminals, <=3 productions of body length <=2" % tot
 
 
+def run_scale(c, stats):
+    """(a) a dispatcher grammar with forty statements (81 variables, 80 terminals): FIRST / FOLLOW / verdict / every
+    member and its proper prefix; (b) a word of 1500 tokens for a right-recursive grammar"""
+    from pyformlang.cfg import CFG, Production, Variable, Terminal
+    from pyformlang.cfg.llone_parser import LLOneParser
+    stats.cls("scale:" + c["scale"])
+    if c["scale"] == "dispatcher":
+        n = c["n"]
+        prods = set()
+        for i in range(n):
+            prods.add(Production(Variable("S"), [Variable("K%d" % i)]))
+            prods.add(Production(Variable("K%d" % i), [Terminal("kw%d" % i), Variable("E%d" % i)]))
+            prods.add(Production(Variable("E%d" % i), [Terminal("end%d" % i)]))
+        g = CFG(start_symbol=Variable("S"), productions=prods)
+        ok, p = call(LLOneParser, g)
+        if not ok:
+            return False
+        call(p.get_first_set)
+        call(p.get_follow_set)
+        call(p.is_llone_parsable)
+        for i in range(n):
+            call(p.get_llone_parse_tree, ["kw%d" % i, "end%d" % i])
+            call(p.get_llone_parse_tree, ["kw%d" % i])
+        return True
+    g = CFG.from_text("S -> a S | b")
+    ok, p = call(LLOneParser, g)
+    if ok:
+        call(p.get_llone_parse_tree, ["a"] * c["n"] + ["b"])
+        call(p.get_llone_parse_tree, ["a"] * c["n"])
+    return True
+
+
 def run_case(c, stats):
+    if c.get("scale"):
+        return run_scale(c, stats)
     from pyformlang.cfg.llone_parser import LLOneParser
     g = gcfg.build(c)
     with core.oracle_mode():
